@@ -82,6 +82,7 @@ static std::string errorRecord(StringRef m) {
   if (m == "duplicate rule") return "E 33 -";
   if (m == "missing 'command' variable assignment") return "E 34 -";
   if (m == "include nesting too deep") return "E 36 -";
+  if (m == "recursive include") return "E 37 -";
   return "E 99 " + hex(m.str());
 }
 
